@@ -50,7 +50,7 @@ def sh(cmd, timeout=600, cwd=None, env=None, input=None, check=False):
     t0 = time.time()
     try:
         p = subprocess.run(cmd, shell=isinstance(cmd, str), cwd=cwd, env=e, input=input,
-                           stdout=subprocess.PIPE, stderr=subprocess.PIPE, text=True, timeout=timeout)
+                           stdout=subprocess.PIPE, stderr=subprocess.PIPE, text=True, errors='replace', timeout=timeout)   # errors=: a program under test may print arbitrary bytes (e.g. a dangling char*)
         rc, out, err = p.returncode, p.stdout, p.stderr
     except subprocess.TimeoutExpired as ex:
         rc, out, err = 124, (ex.stdout or '') if isinstance(ex.stdout, str) else '', 'TIMEOUT after %ss' % timeout
